@@ -92,6 +92,191 @@ def check_site(t, Event, body_src, meth, exp, key, nontrivial):
                     f"{meth}({', '.join(exp)})", unparse(c), rp)
 
 
+# ---- random typed expressions with random call shapes (seeded) ---------------------------------
+def fuzz_world():
+    class Track:
+        def pt(self, scale: float = 1.0) -> float: ...
+        def z(self) -> float: ...
+
+    class Jet:
+        def pt(self, scale: float = 2.0, off: float = 0.5) -> float: ...
+        def eta(self) -> float: ...
+        def shift(self, a: float, b: float = 3.0) -> float: ...
+        def Tracks(self, kind: str = "all") -> Iterable[Track]: ...
+        def lead(self, n: int = 0) -> Track: ...
+
+    class Event:
+        def met(self) -> float: ...
+        def Jets(self, name: str = "std", cut: float = 0.0) -> Iterable[Jet]: ...
+        def lead(self) -> Jet: ...
+    return Event, Jet, Track
+
+
+class RandTyped:
+    """Every production returns (user source, expected normalised source): calls of the model's
+    methods are written with a random legal shape (optional parameters omitted, given by position
+    or by keyword in any order); the expected text has every declared parameter positionally."""
+
+    SIGS = {("Track", "pt"): [("scale", 1.0)], ("Track", "z"): [],
+            ("Jet", "pt"): [("scale", 2.0), ("off", 0.5)], ("Jet", "eta"): [],
+            ("Jet", "shift"): [("a", None), ("b", 3.0)], ("Jet", "Tracks"): [("kind", "all")],
+            ("Jet", "lead"): [("n", 0)], ("Event", "met"): [],
+            ("Event", "Jets"): [("name", "std"), ("cut", 0.0)], ("Event", "lead"): []}
+
+    def __init__(self, rng):
+        self.rng, self.k = rng, 0
+
+    def fresh(self, scope):
+        if scope and self.rng.random() < 0.25:
+            return self.rng.choice([n for n, _ in scope])
+        self.k += 1
+        return f"u{self.k}"
+
+    def bind(self, scope, v, kind):
+        return [(n, k) for n, k in scope if n != v] + [(v, kind)]
+
+    def call(self, recv, cls, meth, scope, d):
+        """recv: (src, norm) of the receiver"""
+        r = self.rng
+        params = self.SIGS[(cls, meth)]
+        vals = []
+        for name, default in params:
+            if default is None or r.random() < 0.5:
+                if name in ("name", "kind"):
+                    v = repr(r.choice(["std", "all", "x"]))
+                    vals.append((v, v))
+                elif name == "n":
+                    v = str(r.randint(0, 2))
+                    vals.append((v, v))
+                else:
+                    vals.append(self.flt(scope, max(d - 1, 0)))
+            else:
+                vals.append(None)
+        # positional prefix: the first k given parameters with no gap before them
+        given = [i for i, v in enumerate(vals) if v is not None]
+        npos = 0
+        while npos < len(params) and vals[npos] is not None and r.random() < 0.5:
+            npos += 1
+        pos = [vals[i][0] for i in range(npos)]
+        kw = [(params[i][0], vals[i][0]) for i in given if i >= npos]
+        r.shuffle(kw)
+        src = f"{recv[0]}.{meth}({', '.join(pos + [f'{k}={v}' for k, v in kw])})"
+        norm_args = [vals[i][1] if vals[i] is not None else repr(params[i][1]) for i in range(len(params))]
+        return src, f"{recv[1]}.{meth}({', '.join(norm_args)})"
+
+    def obj(self, cls, scope, d):
+        vs = [n for n, k in scope if k == cls]
+        opts = [lambda: (lambda n: (n, n))(self.rng.choice(vs))] * (3 if vs else 0)
+        if cls == "Jet":
+            es = [n for n, k in scope if k == "Event"]
+            if es:
+                opts.append(lambda: self.call((lambda n: (n, n))(self.rng.choice(es)), "Event", "lead", scope, d))
+        if cls == "Track" and d > 0:
+            j = self.obj("Jet", scope, d - 1)
+            if j is not None:
+                opts.append(lambda: self.call(j, "Jet", "lead", scope, d - 1))
+        return self.rng.choice(opts)() if opts else None
+
+    def flt(self, scope, d):
+        r = self.rng
+        opts = [lambda: (lambda v: (v, v))(repr(float(r.randint(0, 4))))]
+        for cls, meths in (("Event", ["met"]), ("Jet", ["pt", "eta", "shift"]), ("Track", ["pt", "z"])):
+            o = self.obj(cls, scope, d - 1) if d > 0 or any(k == cls for _, k in scope) else None
+            if o is not None:
+                opts += [lambda o=o, cls=cls, meths=meths: self.call(o, cls, r.choice(meths), scope, d - 1)] * 3
+        if d > 0:
+            def binop():
+                a, b = self.flt(scope, d - 1), self.flt(scope, d - 1)
+                op = r.choice(["+", "-", "*"])
+                return f"({a[0]} {op} {b[0]})", f"({a[1]} {op} {b[1]})"
+
+            def cond():
+                a, b, c = self.flt(scope, d - 1), self.flt(scope, d - 1), self.flt(scope, d - 1)
+                return f"({a[0]} if {b[0]} > 1.0 else {c[0]})", f"({a[1]} if {b[1]} > 1.0 else {c[1]})"
+
+            def count():
+                s = self.seq(scope, d - 1)
+                return None if s is None else (f"{s[0]}.Count()", f"{s[1]}.Count()")
+            opts += [binop, cond, count]
+        for _ in range(6):
+            v = r.choice(opts)()
+            if v is not None:
+                return v
+        return ("1.0", "1.0")
+
+    def seq(self, scope, d):
+        """(src, norm, element class)"""
+        r = self.rng
+        opts = []
+        es = [n for n, k in scope if k == "Event"]
+        if es:
+            opts.append(lambda: self.call((lambda n: (n, n))(r.choice(es)), "Event", "Jets", scope, d) + ("Jet",))
+        j = self.obj("Jet", scope, d)
+        if j is not None:
+            opts.append(lambda: self.call(j, "Jet", "Tracks", scope, d) + ("Track",))
+        if not opts:
+            return None
+        src, norm, k = r.choice(opts)()
+        if d > 0 and r.random() < 0.4:
+            v = self.fresh(scope)
+            c = self.flt(self.bind(scope, v, k), d - 1)
+            src, norm = f"{src}.Where(lambda {v}: {c[0]} > 1.0)", f"{norm}.Where(lambda {v}: {c[1]} > 1.0)"
+        return src, norm, k
+
+    def expression(self):
+        r = self.rng
+        scope = [("e", "Event")]
+        d = r.randint(1, 3)
+        if r.random() < 0.4:
+            return self.flt(scope, d)
+        s = self.seq(scope, d)
+        v = self.fresh(scope)
+        b = self.flt(self.bind(scope, v, s[2]), d - 1)
+        if r.random() < 0.3:
+            # a dictionary field carries the object into the next lambda
+            w = self.fresh(scope)
+            b2 = self.flt(self.bind(scope, w, s[2]), d - 1)
+            inner_s = b2[0].replace(f"{w}.", f"{w}.o.") if False else None
+        return f"{s[0]}.Select(lambda {v}: {b[0]})", f"{s[1]}.Select(lambda {v}: {b[1]})"
+
+
+def fuzz(t, n):
+    from func_adl import ObjectStream
+    from func_adl.type_based_replacement import remap_by_types
+    Event, Jet, Track = fuzz_world()
+    g = RandTyped(t.rng)
+    seen = set()
+    done = 0
+    for _ in range(n * 3):
+        if done >= n or t.out_of_time():
+            break
+        try:
+            src, norm = g.expression()
+        except (RecursionError, TypeError, IndexError):
+            continue
+        if src in seen or len(src) > 400:
+            continue
+        seen.add(src)
+        done += 1
+        key = "fuzz:" + src
+        t.case("C07:" + key, src != norm, sample=src)
+        t.contract("remap_by_types: every typed call in full positional form (random shapes)")
+        rp = {"kind": "C07", "key": key}
+        try:
+            _, new, _ = remap_by_types(ObjectStream[Event](ast.Name("e", ast.Load())), {"e": Event},
+                                       ast.parse(src).body[0].value)
+        except Exception as ex:
+            t.violation("remap_by_types:no-exception on a legal typed call shape",
+                        f"raises {type(ex).__name__}: {str(ex)[:80]}", key, norm, repr(ex)[:120], rp)
+            continue
+        want = ast.dump(ast.parse(norm).body[0].value)
+        if ast.dump(new) != want:
+            t.violation("_fill_in_default_arguments:ensures args == bind(call) in declaration order, "
+                        "no consumed keyword left", "emitted expression is not the expected "
+                        "normalised form", key, norm, unparse(new), rp)
+    t.bounds.append(f"{done} random typed expressions with random call shapes (seeded)")
+
+
 def run(t):
     quick = t.tier == "quick"
     max_n = 3
@@ -181,6 +366,7 @@ def run(t):
                             f"argument count of {name} changed", src, a, f"{b} in {unparse(new)}",
                             {"kind": "C07", "key": src})
     t.bounds.append(f"{n_sites} typed call sites")
+    fuzz(t, 80 if quick else 4000)
 
 
 def check_fn(t, Event, src, exp, key, nontrivial):
